@@ -124,6 +124,8 @@ def get_atomic_sequence(xsd_type: Optional[XsdTypeProtocol],
     def decode(s: str) -> aliases.AtomicType:
         if isinstance(value, (dt.AbstractDateTime, dt.Duration)):
             return value.fromstring(s)
+        elif isinstance(value, bool):
+            return dt.BooleanProxy(s)  # bool('false') is True
         elif not isinstance(value, dt.AbstractQName):
             return value.__class__(s)
         else:
@@ -132,8 +134,10 @@ def get_atomic_sequence(xsd_type: Optional[XsdTypeProtocol],
                 namespaces = {}
             if ':' not in s:
                 return value.__class__(namespaces.get(''), s)
-            else:
+            try:
                 return value.__class__(namespaces[s.split(':')[0]], s)
+            except KeyError:
+                raise ValueError(f"prefix of {s!r} not found in namespace map") from None
 
     if xsd_type is None:
         yield dt.UntypedAtomic(text or '')
